@@ -393,7 +393,27 @@ def attr_histories(ctx):
     h += histories.explore(make_z, "nodata", [histories.ABSENT, 255, 0, 1], lambda z: np.asarray(vfix.hdc.zonal.mean(z, [0, 1]).values).copy(), same, 3, ctx, sub,
                            "zonal.mean[zone raster attrs]")
     ctx.note_add("attr_histories", h)
-    ctx.sample(sub, {"attr": "nodata", "values_cube": ["<absent>", -9999, 0, 7], "values_zones": ["<absent>", 255, 0, 1], "depth": 3})
+    # data edited in place between calls (a float cube that had no NaN gets one, a nodata cell, a plain change): the
+    # next call on the same object sees the object as it is now
+    import itertools
+    fvals = np.array([[[5.0, 1.5], [7.0, 2.0]], [[0.5, 0.25], [3.0, 7.0]], [[7.0, 7.5], [9.0, 2.0]]])
+    edits = {"NaN at (1,0,1)": ((1, 0, 1), np.nan), "nodata at (0,1,0)": ((0, 1, 0), -9999.0), "NaN at (2,1,1)": ((2, 1, 1), np.nan), "value at (0,0,0)": ((0, 0, 0), 42.0)}
+    for dtype in ("float64", "float32"):
+        for seq in itertools.chain(itertools.permutations(edits, 1), itertools.permutations(edits, 2), itertools.permutations(edits, 3)):
+            obj = xr.DataArray(fvals.astype(dtype).copy(), dims=("time", "y", "x"), coords={"time": time}, name="v", attrs={"nodata": -9999})
+            obj.hdc.zonal.mean(zfix, [0, 1])
+            for step, e in enumerate(seq):
+                cell, val = edits[e]
+                obj.values[cell] = val
+                fresh = xr.DataArray(obj.values.copy(), dims=("time", "y", "x"), coords={"time": time}, name="v", attrs={"nodata": -9999})
+                got, exp = np.asarray(obj.hdc.zonal.mean(zfix, [0, 1]).values), np.asarray(fresh.hdc.zonal.mean(zfix, [0, 1]).values)
+                ctx.count(sub, evaluations=1, states=1, transitions=1, nontrivial=1)
+                if not np.array_equal(got, exp, equal_nan=True):
+                    ctx.violation(sub, {"what": "in-place edit", "history": list(seq[:step + 1]), "dtype": dtype}, {"kind": "attr_history"},
+                                  f"zonal.mean on one {dtype} object after the in-place edits {list(seq[:step + 1])} (a call after each) gives {got.tolist()}, "
+                                  f"a fresh object with the same data gives {exp.tolist()}")
+                    break
+    ctx.sample(sub, {"attr": "nodata", "values_cube": ["<absent>", -9999, 0, 7], "values_zones": ["<absent>", 255, 0, 1], "depth": 3, "in_place_edits": list(edits)})
 
 
 def run(ctx):
